@@ -16,68 +16,11 @@ import (
 //verif:stub (github.com/algorand/go-algorand/agreement.step).nextVoteRanges = verifStubNextVoteRanges
 //verif:stub (github.com/algorand/go-algorand/agreement.unauthenticatedProposal).value = verifStubProposalValue
 
-// The threshold events handled in this step, in order: the top event (if it
-// is one) followed by every freshest-bundle answer that enterRound re-handles.
-func verifC01Handled(o *verifC01Oracle, top *thresholdEvent) []thresholdEvent {
-	var hs []thresholdEvent
-	if top != nil {
-		hs = append(hs, *top)
-	}
-	for i := 0; i < o.n; i++ {
-		q := &o.asks[i]
-		if q.kind == vkFreshest && q.flag {
-			hs = append(hs, q.thr)
-		}
-	}
-	return hs
-}
-
-// C03 lemma + the Round part of S4, for steps whose ensureActions all come from
-// handleThresholdEvent(certThreshold): the k-th ensureAction carries the bundle
-// of the k-th handled threshold event, which is a cert threshold for round
-// base+k whose value is the one the oracle reported as committable (with that
-// very payload) for the event's (round, period); the player ends in round base+#ensure.
-func verifC01AssertEnsure(tag string, o *verifC01Oracle, base round, hs []thresholdEvent, p *player, out []action) int {
-	k := 0
-	for _, act := range out {
-		ea, ok := act.(ensureAction)
-		if !ok {
-			continue
-		}
-		vr.Reach("ensure")
-		if k >= len(hs) {
-			vr.Assert(tag+".ensure-has-threshold-event", false)
-			k++
-			continue
-		}
-		h := hs[k]
-		c := ea.Certificate
-		vr.Assert(tag+".ensure-from-cert-threshold", h.T == certThreshold)
-		vr.Assert(tag+".cert-is-event-bundle", c.Round == h.Bundle.Round && c.Period == h.Bundle.Period && c.Step == h.Bundle.Step && c.Proposal == h.Bundle.Proposal &&
-			len(c.Votes) == 1 && len(c.EquivocationVotes) == 0 && c.Votes[0].Sender[0] == h.Bundle.Votes[0].Sender[0])
-		vr.Assert(tag+".cert-round-is-player-round", c.Round == base+round(k))
-		vr.Assert(tag+".cert-step", c.Step == cert)
-		vr.Assert(tag+".cert-not-bottom", c.Proposal != bottom)
-		// the payload handed to the ledger is the one reported committable for (h.Round, h.Period) and is the certified value
-		found := false
-		for i := 0; i < o.n; i++ {
-			q := &o.asks[i]
-			if q.kind == vkStaged && q.flag && q.r == h.Round && q.p == h.Period && q.val == c.Proposal && q.marker == ea.Payload.SeedProof[0] {
-				found = true
-			}
-		}
-		vr.Assert(tag+".payload-is-committable-value", found)
-		vr.Assert(tag+".payload-value-is-certified", verifStubProposalValue(ea.Payload.u()) == c.Proposal)
-		k++
-	}
-	vr.Assert(tag+".round-advances-once-per-ensure", p.Round == base+round(k))
-	return k
-}
-
-func verifC01ThresholdStep(kind eventType, freshestOk bool) {
+func verifC01ThresholdStep(kind eventType, freshestBudget int) {
 	verifC01InstallConsensus()
 	o := verifC01NewOracle()
-	o.allowFreshestOk = freshestOk
+	o.freshestBudget = freshestBudget
+	verifC01ThoroughOptions(o)
 	p := verifC01Player()
 	pre := verifC01Pre{p.Round, p.Period, p.Step}
 	o.preRound = pre.Round
@@ -90,70 +33,20 @@ func verifC01ThresholdStep(kind eventType, freshestOk bool) {
 	out := verifC01Step(p, rh, e)
 
 	verifC01AssertAllVotes(o, p, out)
-	nE := verifC01AssertEnsure("c01.S4", o, pre.Round, verifC01Handled(o, &e), p, out)
-
-	// S4
-	vr.Assert("c01.S4.round-monotone", p.Round >= pre.Round)
-	if nE == 0 {
-		want := pre.Period
-		switch kind {
-		case softThreshold, certThreshold:
-			if e.Period > pre.Period {
-				want = e.Period
-			}
-		case nextThreshold:
-			if e.Period >= pre.Period {
-				want = e.Period + 1
-			}
-		}
-		vr.Assert("c01.S4.period-as-prescribed", p.Period == want)
-		vr.Assert("c01.S4.period-monotone", p.Period >= pre.Period)
-		if p.Period != pre.Period {
-			vr.Reach("newperiod")
-			vr.Assert("c01.S4.new-period-starts-at-soft", p.Step == soft && !p.Napping)
-		} else {
-			vr.Assert("c01.S4.step-unchanged", p.Step == pre.Step)
-		}
-	} else {
-		vr.Assert("c01.S4.only-cert-threshold-ends-round", kind == certThreshold)
-		// a new round starts in period 0; the pipelined freshest bundle of the new round is of
-		// period 0, so at most a next threshold moves on to period 1
-		vr.Assert("c01.S4.new-round-period", p.Period <= 1)
-		vr.Assert("c01.S4.new-round-starts-at-soft", p.Step == soft && !p.Napping)
-	}
+	nE := verifC01AssertEnsure("c01.S4", o, pre.Round, verifC01EnsureSources(o, &e), nil, p, out)
+	verifC01AssertS4(pre, &e, nE, p)
+	vr.Assert("c01.S4.only-cert-threshold-ends-round", nE == 0 || kind == certThreshold)
 	vr.Reach("done")
 }
 
-//verif:harness prop=C01 reach=done,attest,certvote,newperiod unwind=10 budget=200
-func VerifC01ThresholdSoft() { verifC01ThresholdStep(softThreshold, true) }
+//verif:harness prop=C01 reach=done,attest,certvote,newperiod unwind=10 budget=200 thorough.budget=2400
+func VerifC01ThresholdSoft() { verifC01ThresholdStep(softThreshold, vr.Param(1, 3)) }
 
-//verif:harness prop=C01 reach=done,ensure,newperiod,attest unwind=10 budget=200
-func VerifC01ThresholdCert() { verifC01ThresholdStep(certThreshold, true) }
+//verif:harness prop=C01 reach=done,ensure,newperiod,attest unwind=10 budget=200 thorough.budget=2400
+func VerifC01ThresholdCert() { verifC01ThresholdStep(certThreshold, vr.Param(1, 3)) }
 
-//verif:harness prop=C01 reach=done,newperiod unwind=10 budget=200
-func VerifC01ThresholdNext() { verifC01ThresholdStep(nextThreshold, true) }
-
-func verifC01TimeoutEvent(t eventType, round round) timeoutEvent {
-	var e timeoutEvent
-	e.T = t
-	e.RandomEntropy = vr.U64("ev.entropy")
-	e.Round = round
-	// the consensus version view attached by demux.next from Ledger.ConsensusVersion: a supported
-	// version without error, or an error (and no version).  player.handle additionally tolerates an
-	// empty version without error for ordinary timeouts; handleFastTimeout does not (it would divide
-	// by FastRecoveryLambda == 0), and demux never produces it.
-	nproto := 2
-	if t == timeout {
-		nproto = 3
-	}
-	switch vr.Choice("ev.proto", nproto) {
-	case 0:
-		e.Proto.Version = "vT"
-	case 1:
-		e.Proto.Err = makeSerErrStr("verif: no consensus version")
-	}
-	return e
-}
+//verif:harness prop=C01 reach=done,newperiod unwind=10 budget=200 thorough.budget=2400
+func VerifC01ThresholdNext() { verifC01ThresholdStep(nextThreshold, vr.Param(1, 3)) }
 
 func verifC01TimeoutStep(t eventType) {
 	verifC01InstallConsensus()
@@ -209,17 +102,19 @@ func verifC01TimeoutStep(t eventType) {
 	vr.Reach("done")
 }
 
-//verif:harness prop=C01 reach=done,attest,softvote,nextvote,softtimeout unwind=10 budget=200
+//verif:harness prop=C01 reach=done,attest,softvote,nextvote,softtimeout unwind=10 budget=200 thorough.budget=2400
 func VerifC01Timeout() { verifC01TimeoutStep(timeout) }
 
-//verif:harness prop=C01 reach=done,attest,nextvote unwind=10 budget=200
+//verif:harness prop=C01 reach=done,attest,nextvote unwind=10 budget=200 thorough.budget=2400
 func VerifC01FastTimeout() { verifC01TimeoutStep(fastTimeout) }
 
-//verif:harness prop=C01 reach=done,ensure,attest unwind=10 budget=200
+//verif:harness prop=C01 reach=done,ensure,attest unwind=10 budget=200 thorough.budget=2400
 func VerifC01RoundInterruption() {
 	verifC01InstallConsensus()
 	o := verifC01NewOracle()
-	o.allowFreshestOk = true
+	o.freshestBudget = 3 // enterRound re-handles the pipelined freshest bundle, which may end the next round too
+	o.allowPipelined = true
+	o.allowLowest = true
 	p := verifC01Player()
 	pre := verifC01Pre{p.Round, p.Period, p.Step}
 	o.preRound = pre.Round
@@ -234,7 +129,7 @@ func VerifC01RoundInterruption() {
 	out := verifC01Step(p, rh, e)
 
 	verifC01AssertAllVotes(o, p, out)
-	verifC01AssertEnsure("c01.S4", o, e.Round, verifC01Handled(o, nil), p, out)
+	verifC01AssertEnsure("c01.S4", o, e.Round, verifC01EnsureSources(o, nil), nil, p, out)
 	vr.Assert("c01.S4.round-increases", p.Round > pre.Round)
 	vr.Assert("c01.S4.new-round-period", p.Period <= 1)
 	vr.Assert("c01.S4.new-round-starts-at-soft", p.Step == soft && !p.Napping)
